@@ -21,6 +21,8 @@ def cond_key(p, drop=()):
 
 
 def run(chk, repo, tier):
+    from .common import no_hidden_state
+    no_hidden_state(chk, repo, 'C11')
     chk.clause('C11-a', 'zero outside the mask: the mask is a factor of every returned mode', 5)
     chk.clause('C11-b', 'the mask is coerced to bool before any other use', 2)
     chk.clause('C11-c', 'normalised = un-normalised x sqrt(n+1) (m = 0) or sqrt(2)*sqrt(n+1) (m != 0); cosine for m > 0, sine for m < 0', 5)
